@@ -98,6 +98,9 @@ func genDual(seed uint64, maxFork h.Fork, tweak func(o *h.GenOpts)) DualCase {
 	n := 1 + r.Intn(4)
 	w := h.GenWorld(r, n, o)
 	dc := DualCase{World: w, Env: h.EnvSpec{Fork: f, ExtraEips: genExtraEips(r, f)}}
+	if m := h.Mix(seed, 0xb10c); m%10 < 3 { // (drawn apart from r: the block height does not perturb the program)
+		dc.Env.Number = []uint64{1, 255, 256, 257, 258, 300, 5000, 1 << 33}[(m>>8)%8]
+	}
 	entry := h.Entry(r.Intn(6))
 	if r.Chance(40) {
 		entry = h.ECall
@@ -132,7 +135,7 @@ func genDual(seed uint64, maxFork h.Fork, tweak func(o *h.GenOpts)) DualCase {
 		tx.AccessList = append(tx.AccessList, accessTuple(h.ContractAddr(r.Intn(n)), r))
 	}
 	dc.Tx = tx
-	dc.Desc = fmt.Sprintf("fork=%s eips=%v entry=%s gas=%d value=%v ncontracts=%d in=%d", f, dc.Env.ExtraEips, entry, tx.Gas, tx.Value, n, len(tx.Input))
+	dc.Desc = fmt.Sprintf("fork=%s block=%d eips=%v entry=%s gas=%d value=%v ncontracts=%d in=%d", f, dc.Env.Number, dc.Env.ExtraEips, entry, tx.Gas, tx.Value, n, len(tx.Input))
 	return dc
 }
 
